@@ -350,12 +350,25 @@ func c02WriteTCP(x *engine.X) {
 	var cerr error
 	var cn int
 	cb := func(err error, m int) { calls++; cerr, cn = err, m }
+	// As a deviation a read is pending on the same connection, and its completion (the peer sends one byte while the
+	// large write is parked half-way) cancels the object: the write then reports a cancellation with the count moved
+	// so far — and not one byte more may reach the peer afterwards.
+	cancelOnRead := n > 1 && x.Deviate(2, "a pending read's completion cancels the object while the write is parked") == 1
+	byteSent := false
+	if cancelOnRead {
+		o.fdo.AsyncRead(make([]byte, 4), func(err error, m int) {
+			if err == nil {
+				x.Note("  read completed: Cancel()")
+				o.fdo.Cancel()
+			}
+		})
+	}
 	if all {
 		o.fdo.AsyncWriteAll(buf, cb)
 	} else {
 		o.fdo.AsyncWrite(buf, cb)
 	}
-	x.Note("write/%s n=%d all=%v", kind, n, all)
+	x.Note("write/%s n=%d all=%v cancelOnRead=%v", kind, n, all, cancelOnRead)
 	x.Nontrivial()
 	var got []byte
 	rb := make([]byte, 1<<15)
@@ -375,8 +388,27 @@ func c02WriteTCP(x *engine.X) {
 		if len(got) >= n && !kern.WouldNotBlockWrite(o.rawfd) {
 			continue
 		}
+		if cancelOnRead && !byteSent && len(got) > 0 && kern.WouldNotBlockWrite(o.rawfd) {
+			// the socket is writable again (the peer has just read) and now also readable: one event carries both
+			syscall.Write(o.peer, []byte{7})
+			kern.AwaitReadReady(o.rawfd, settleGuard)
+			byteSent = true
+		}
 		d.ioc.PollOne()
 		polls++
+	}
+	if cancelOnRead {
+		// whatever the cancelled write was still going to do, it would do it in the next cycles
+		for i := 0; i < 3; i++ {
+			d.ioc.PollOne()
+		}
+		for kern.Poll(o.peer, 1, 30)&1 != 0 {
+			m, err := syscall.Read(o.peer, rb)
+			if err != nil || m <= 0 {
+				break
+			}
+			got = append(got, rb[:m]...)
+		}
 	}
 	if calls != 1 {
 		x.Fail("stream.write/callback-count", "TCP write of %d bytes: callback ran %d times after %d drain+poll rounds", n, calls, polls)
